@@ -102,7 +102,7 @@ pub fn run(cfg: Config) -> i32 {
 
 fn mixtures(m: &mut Monitor, cfg: &Config) {
     let pairs = hydrocarbon_pairs(1.8);
-    let n = cfg.tier.pick(1200, 60_000);
+    let n = cfg.tier.pick(1200, 150_000);
     let idx: Vec<u64> = (0..n).collect();
     par_cases(m, &idx, |m, _, &i| {
         let mut rng = Rng::derive(cfg.seed, "c07-mix", i);
@@ -228,7 +228,7 @@ fn mixtures(m: &mut Monitor, cfg: &Config) {
 
 fn zoo(m: &mut Monitor, cfg: &Config) {
     let col = Collections::load();
-    let n = cfg.tier.pick(1000, 40_000);
+    let n = cfg.tier.pick(1000, 120_000);
     let idx: Vec<u64> = (0..n).collect();
     par_cases(m, &idx, |m, _, &i| {
         let mut rng = Rng::derive(cfg.seed, "c07-zoo", i);
